@@ -242,6 +242,72 @@ func coalescedHandshakeCase(r *Recorder, kk bool, min, max byte, recLen int) {
 	r.Case(name, true, "coalesced-handshake")
 }
 
+// writeRetryCase: a net.Conn style writer on the TCP variant whose transport accepts only `cut`
+// bytes of the first record and then times out. The application then behaves in one of two ways:
+// "flush" (documented: call Flush until it succeeds) or "rewrite" (it calls Write again with the
+// bytes Write said were not written yet; when that is refused it falls back to Flush). Whatever it
+// does, the reader must end up with exactly the bytes the writer was told had been written.
+func writeRetryCase(r *Recorder, payloadLen, cut int, mode string) {
+	cli, srv, cc, sc := quickPair()
+	name := fmt.Sprintf("write-retry:len=%d:cut=%d:%s", payloadLen, cut, mode)
+	if cli.Err != nil || srv.Err != nil {
+		r.Violate("C16/setup", fmt.Sprint(cli.Err, srv.Err), name)
+		return
+	}
+	w := mailbox.VNewNoiseConn(cc, cli.Machine)
+	first := true
+	cc.accept = func(n int) (int, error) {
+		if first {
+			first = false
+			if cut < n {
+				return cut, errShortWrite
+			}
+		}
+		return n, nil
+	}
+	data := patterned(payloadLen, 21)
+	told := 0
+	n, err := w.Write(data)
+	told += n
+	steps := []string{fmt.Sprintf("Write(%d)=%d,%v", payloadLen, n, err)}
+	for tries := 0; err != nil && tries < 6; tries++ {
+		if mode == "rewrite" && tries == 0 && told < len(data) {
+			n, err = w.Write(data[told:])
+			steps = append(steps, fmt.Sprintf("Write(rest %d)=%d,%v", len(data)-told+0, n, err))
+			if err == nil {
+				told += n
+				break
+			}
+			if !strings.Contains(err.Error(), "timeout") {
+				err = errShortWrite // refused: fall back to the documented Flush
+				continue
+			}
+			told += n
+			continue
+		}
+		n, err = w.Flush()
+		told += n
+		steps = append(steps, fmt.Sprintf("Flush=%d,%v", n, err))
+	}
+	cc.wr.close() // nothing more will come
+	var got []byte
+	for {
+		m, rerr := srv.Machine.ReadMessage(sc)
+		if rerr != nil {
+			break
+		}
+		got = append(got, m...)
+	}
+	if told > len(data) {
+		told = len(data)
+	}
+	if !bytes.Equal(got, data[:told]) {
+		r.Violate("C16/write-retry-duplicates-or-loses", fmt.Sprintf("%d byte Write, transport accepted %d wire bytes then timed out, application %v: it was told %d bytes were written, the reader got %d bytes (equal prefix: %v)",
+			payloadLen, cut, steps, told, len(got), bytes.HasPrefix(got, data[:min(told, len(got))])), name)
+	}
+	r.Case(name, true, "write-retry/"+mode)
+}
+
 func TestC16(t *testing.T) {
 	r := NewRecorder(t, "C16")
 	defer r.Close(t)
@@ -297,6 +363,14 @@ func TestC16(t *testing.T) {
 	for i := 0; i < pick(20, 300); i++ {
 		fr := newRand(int64(1600 + i))
 		fragHandshakeCase(r, 0, 0, 2, i%3 == 0, 100+fr.Intn(2000), func() int { return 1 + fr.Intn(40) })
+	}
+	// a Write interrupted by a transport timeout, then the application's retry
+	for _, l := range []int{1, 12, 300} {
+		for _, cut := range []int{0, 5, 18, 19, 18 + l, 18 + l + 15} {
+			for _, mode := range []string{"flush", "rewrite"} {
+				writeRetryCase(r, l, cut, mode)
+			}
+		}
 	}
 	// the last act of the handshake and the first record in one Read
 	for _, cfg := range [][3]int{{0, 0, 0}, {1, 1, 0}, {2, 2, 0}, {0, 2, 0}, {2, 2, 1}} {
